@@ -21,7 +21,10 @@ RULE = (
     "scene: random multi-label scenes (0-6 ground truths incl. non-target, unknown and false_positive labels, estimates at "
     "dyadic offsets so that scores fall exactly on thresholds, label swaps, GT-less estimates, confidence ties) paired by "
     "the real matcher; long: rankings of 7-400 real results with heavy confidence ties; x 4 matching modes x 3 label "
-    "policies x an ordered pair of per-label threshold lists (t, looser t'; equal entries included); manager: 1-3 frames "
+    "policies x an ordered pair of per-label threshold lists (t, looser t'; equal entries included; in 30% of the pairs entries "
+    "at the ends of the mode's scale: float('inf') / 1e300 / 1e-300 / 5e-324 / 0 for the distances, 0 / 5e-324 / 1e-300 / 1 for "
+    "the IoUs, on the loose side, the tight side or both; in 30% of the scenes Map is handed its dicts with permuted keys); "
+    "manager: 1-3 frames (critical-filter / pass-fail label lists in another order than the evaluation config in half of them) "
     "through PerceptionEvaluationManager configured with both lists (frame and scene level); pair2d: 2-D objects with and "
     "without ROI (no matching method). Non-trivial = at least one result; distinct = distinct canonical JSON."
 )
@@ -31,6 +34,10 @@ THEOREMS = [
         "looser_distance", "looser_iou", "isBetter_mono", "isResultCorrect_mono", "isResultCorrect_mono_of_ok",
         "isResultCorrect_antitone_fp_label", "tp_never_lost", "tp_count_mono", "fn_count_antitone", "apSpec_mono",
         "kind_mono_threshold", "ap_mono_threshold", "aph_mono_threshold", "map_mono_threshold", "frame_map_mono_threshold",
+        # thresholds in EThr = numbers + float("inf") (PEval/Model/APExt.lean)
+        "inf_is_loosest_distance", "inf_rejected_by_iou", "isResultCorrect_at_inf", "looserE_inf", "looserE_numbers",
+        "ext_agrees_on_numbers", "isResultCorrect_mono_ext", "tp_never_lost_ext", "fn_count_antitone_ext",
+        "ap_mono_threshold_ext", "aph_mono_threshold_ext", "map_mono_threshold_ext", "frame_map_mono_threshold_ext",
     ]
 ]
 TRUSTED = list(base.TRUSTED) + [
@@ -41,8 +48,10 @@ ASSUMPTIONS = [
     "ordinary (non false_positive-labelled) ground truth, as the property states: AP / mAP monotonicity is checked for "
     "labels other than false_positive (an FP-labelled ground truth is ignored by every other label's AP); the TP / FN "
     "statements are checked on all inputs (an FP-labelled ground truth never yields a TP or an FN)",
-    "both threshold lists are valid for the mode (IoU thresholds in [0,1]); invalid ones are exercised for the "
-    "correspondence only (both runs raise AssertionError)",
+    "both threshold lists are valid for the mode (IoU thresholds in [0,1]); invalid ones (incl. float('inf') for an IoU) "
+    "are exercised for the correspondence only (both runs raise AssertionError)",
+    "float('inf') is a legal distance threshold (the validators accept any Real) and counts as looser than every number; "
+    "matching scores are finite",
 ]
 
 LABELS, LID, MODES = base.LABELS, base.LID, base.MODES
@@ -51,15 +60,49 @@ LABELS, LID, MODES = base.LABELS, base.LID, base.MODES
 def _loosen(rng, mode, thrs):
     out = []
     for t in thrs:
+        t = base.tf(t)
         d = rng.choice([0.0, 0.25, 0.5, 1.0, 3.0]) if mode in ("center", "plane") else rng.choice([0.0, 0.125, 0.25, 0.5])
-        out.append(t + d if mode in ("center", "plane") else max(0.0, t - d))
+        out.append(base.spell(t + d if mode in ("center", "plane") else max(0.0, t - d)))
     return out
+
+
+# extreme but legal values: the tight end and the loose end of each mode's scale (float("inf") spelled "inf", see c04)
+TIGHT = {"center": [0.0, 5e-324, 1e-300], "plane": [0.0, 5e-324, 1e-300], "iou2d": [1.0], "iou3d": [1.0]}
+LOOSE = {"center": [base.INF, 1e300], "plane": [base.INF, 1e300], "iou2d": [0.0, 5e-324, 1e-300], "iou3d": [0.0, 5e-324, 1e-300]}
+
+
+def _looser1(mode, a, b):
+    a, b = base.tf(a), base.tf(b)
+    return b >= a if mode in ("center", "plane") else b <= a
+
+
+def _extreme_pair(rng, mode, thrs, thrs2, p=0.3):
+    """with probability p some entries of the ordered pair become extreme values: the loose side the loosest values of the
+    mode (inf / 1e300, resp. 0 / 5e-324 / 1e-300), the tight side the tightest, or both sides extremes of the same end
+    (1e300 -> inf, 5e-324 -> 1e-300, inf -> inf ...); every entry pair stays ordered"""
+    thrs, thrs2 = list(thrs), list(thrs2)
+    if rng.random() >= p:
+        return thrs, thrs2
+    for _ in range(rng.choice([1, 1, 2])):
+        i = rng.randrange(len(thrs))
+        how = rng.choice(["loose", "loose", "tight", "both-ends", "same-end-loose", "same-end-tight"])
+        if how in ("loose", "both-ends"):
+            thrs2[i] = rng.choice(LOOSE[mode])
+        if how in ("tight", "both-ends"):
+            thrs[i] = rng.choice(TIGHT[mode])
+        if how == "same-end-loose":
+            thrs[i], thrs2[i] = rng.choice(LOOSE[mode]), rng.choice(LOOSE[mode])
+        if how == "same-end-tight":
+            thrs[i], thrs2[i] = rng.choice(TIGHT[mode]), rng.choice(TIGHT[mode])
+        if not _looser1(mode, thrs[i], thrs2[i]):
+            thrs[i], thrs2[i] = thrs2[i], thrs[i]
+    return thrs, thrs2
 
 
 def _spice(rng, mode, thrs, thrs2):
     """threshold values that are legal but rarely written: exactly 0 (the loosest IoU / the tightest distance) and
     integer-typed numbers (set_thresholds accepts any Real); the pair stays ordered (thrs2 at least as loose)"""
-    thrs, thrs2 = list(thrs), list(thrs2)
+    thrs, thrs2 = _extreme_pair(rng, mode, thrs, thrs2)
     if rng.random() < 0.2:
         i = rng.randrange(len(thrs))
         if mode in ("center", "plane"):
@@ -67,7 +110,7 @@ def _spice(rng, mode, thrs, thrs2):
         else:
             thrs2[i] = 0.0
     if rng.random() < 0.2:
-        as_int = lambda v: int(v) if float(v).is_integer() else v  # noqa
+        as_int = lambda v: int(v) if v != base.INF and abs(v) < 1e6 and float(v).is_integer() else v  # noqa
         which = rng.choice(["tight", "loose", "both"])
         if which in ("tight", "both"):
             thrs = [as_int(v) for v in thrs]
@@ -85,9 +128,12 @@ def _pair_scene(rng):
     mode = rng.choice(MODES)
     thrs = base._thr(rng, mode, k)
     thrs, thrs2 = _spice(rng, mode, thrs, _loosen(rng, mode, thrs))
-    return {"kind": "pair", "src": "scene", "targets": targets, "policy": rng.choice(["DEFAULT", "DEFAULT", "ALLOW_UNKNOWN", "ALLOW_ANY"]),
-            "mode": mode, "thrs": thrs, "thrs2": thrs2,
-            "frame": base._scene(rng, [t for t in targets if t != "false_positive"] or ["car"])}
+    c = {"kind": "pair", "src": "scene", "targets": targets, "policy": rng.choice(["DEFAULT", "DEFAULT", "ALLOW_UNKNOWN", "ALLOW_ANY"]),
+         "mode": mode, "thrs": thrs, "thrs2": thrs2,
+         "frame": base._scene(rng, [t for t in targets if t != "false_positive"] or ["car"])}
+    if rng.random() < 0.3:
+        c["dperm"] = rng.randrange(1 << 16)  # Map is handed its dicts with the keys in another order
+    return c
 
 
 def _pair_long(rng, nmax):
@@ -105,8 +151,9 @@ def _pair_manager(rng):
     for m in MODES:
         t = base._thr(rng, m, k)
         fam[m] = list(_spice(rng, m, t, _loosen(rng, m, t)))
+    crit, pf = base._label_orders(rng, targets)
     return {"kind": "pair", "src": "manager", "targets": targets, "policy": rng.choice(["DEFAULT", "ALLOW_UNKNOWN", "ALLOW_ANY"]),
-            "fam": fam, "frames": [base._scene(rng, targets, 5) for _ in range(rng.randint(1, 3))]}
+            "fam": fam, "frames": [base._scene(rng, targets, 5) for _ in range(rng.randint(1, 3))], "crit": crit, "pf": pf}
 
 
 def _pair_2d(rng):
@@ -131,6 +178,22 @@ def corpus():
     cs.append({"kind": "pair", "src": "scene", "targets": ["car"], "policy": "DEFAULT", "mode": "center", "thrs": [1.0], "thrs2": [2.0], "frame": fr3})
     # invalid IoU threshold in both lists
     cs.append({"kind": "pair", "src": "scene", "targets": ["car"], "policy": "DEFAULT", "mode": "iou2d", "thrs": [1.5], "thrs2": [0.5], "frame": fr2})
+    # the ends of the scales, all four modes: two cars (one 0.5 m off, one exactly on its ground truth) and a pedestrian 1 m off
+    fr4 = {"est": [{"l": "car", "x": 0.5, "y": 0.0, "z": 0.0, "k": 1, "c": 0.75, "id": 0, "ge": "e"},
+                   {"l": "car", "x": 30.0, "y": 0.0, "z": 0.0, "k": 0, "c": 0.5, "id": 1, "ge": "e"},
+                   {"l": "pedestrian", "x": 0.0, "y": 21.0, "z": 0.0, "k": 0, "c": 0.625, "id": 2, "ge": "e"}],
+           "gt": fr["gt"] + [{"l": "pedestrian", "x": 0.0, "y": 20.0, "z": 0.0, "k": 0, "id": 2, "ge": "g"}]}
+    I = base.INF
+    for mode in ("center", "plane"):
+        for t, t2 in [([1.0, 0.5], [I, I]), ([1e300, 2.0], [I, 1e300]), ([I, I], [I, I]), ([0.0, 5e-324], [1e-300, 0.75]),
+                      ([5e-324, 0.0], [0.5, I]), ([2.0, 2.0], [1e300, I])]:
+            cs.append({"kind": "pair", "src": "scene", "targets": ["car", "pedestrian"], "policy": "DEFAULT", "mode": mode,
+                       "thrs": t, "thrs2": t2, "frame": fr4})
+    for mode in ("iou2d", "iou3d"):
+        for t, t2 in [([1.0, 1.0], [0.0, 0.0]), ([0.5, 0.125], [5e-324, 0.0]), ([1e-300, 1.0], [5e-324, 1e-300]), ([0.0, 0.0], [0.0, 0.0]),
+                      ([I, 0.5], [0.5, 0.5]), ([1e300, 0.5], [1.0, 0.5])]:
+            cs.append({"kind": "pair", "src": "scene", "targets": ["car", "pedestrian"], "policy": "DEFAULT", "mode": mode,
+                       "thrs": t, "thrs2": t2, "frame": fr4})
     return cs
 
 
@@ -148,6 +211,7 @@ def generate(rng, tier):
 def _posneg(results, gts, targets, mode, thrs):
     E = base.env()
     try:
+        thrs = base.tfl(thrs)
         tp, fp = E["get_positive_objects"](results, targets, E["MODE"][mode], list(thrs))
         pos = {"tp": [base._uid(r.estimated_object) for r in tp], "fp": [base._uid(r.estimated_object) for r in fp]}
     except Exception as e:
@@ -160,13 +224,22 @@ def _posneg(results, gts, targets, mode, thrs):
     return {"pos": pos, "neg": neg}
 
 
-def _map(results, gts, targets, mode, thrs, twod=False, G=None):
+def _map(results, gts, targets, mode, thrs, twod=False, G=None, dperm=None):
     E = base.env()
     try:
+        thrs = base.tfl(thrs)
         rd = E["divide_objects"](results, targets)
         nd = E["divide_objects_to_num"](gts, targets)
         if G is not None:  # rankings: a free ground-truth count for the first target
             nd[targets[0]] = G
+        if dperm is not None:  # the same dicts with their keys inserted in another order (both runs alike)
+            import random
+            for k, d in enumerate((rd, nd)):
+                ks = list(d.keys())
+                random.Random(dperm + k).shuffle(ks)
+                items = [(x, d[x]) for x in ks]
+                d.clear()
+                d.update(items)
         m = E["Map"](rd, nd, targets, E["MODE"][mode], list(thrs), is_detection_2d=twod)
         return base._map_out(m, mode, thrs)
     except Exception as e:
@@ -183,9 +256,9 @@ def run_impl(case):
             from perception_eval.evaluation.result.perception_frame_config import CriticalObjectFilterConfig, PerceptionPassFailConfig
 
             cfg, mgr = base._manager(case["targets"], case["fam"], case["policy"])
-            crit = CriticalObjectFilterConfig(cfg, list(case["targets"]), max_x_position_list=[150.0] * len(targets),
+            crit = CriticalObjectFilterConfig(cfg, list(case.get("crit") or case["targets"]), max_x_position_list=[150.0] * len(targets),
                                               max_y_position_list=[150.0] * len(targets))
-            pf = PerceptionPassFailConfig(cfg, list(case["targets"]), matching_threshold_list=[2.0] * len(targets))
+            pf = PerceptionPassFailConfig(cfg, list(case.get("pf") or case["targets"]), matching_threshold_list=[2.0] * len(targets))
             out = {"frames": [], "frame_maps": [], "frame_pn": []}
             for i, fr in enumerate(case["frames"]):
                 ests = [base.mk_obj(o) for o in fr["est"]]
@@ -223,7 +296,7 @@ def run_impl(case):
     out = {"res": descs, "gts": [{"id": base._uid(g), "l": LID[g.semantic_label.label.value]} for g in gts], "runs": []}
     for thrs in (case["thrs"], case["thrs2"]):
         run = _posneg(results, gts, targets, case["mode"], thrs)
-        run["map"] = _map(list(results), gts, targets, case["mode"], thrs, twod, G)
+        run["map"] = _map(list(results), gts, targets, case["mode"], thrs, twod, G, case.get("dperm"))
         out["runs"].append(run)
     return out
 
@@ -231,13 +304,13 @@ def run_impl(case):
 # ----------------------------------------------------------------------------- the model
 
 def _req_posneg(descs, gts, targets, mode, thrs):
-    return {"op": "posneg", "mode": mode, "targets": [LID[t] for t in targets], "thrs": [core.q(t) for t in thrs],
+    return {"op": "posneg", "mode": mode, "targets": [LID[t] for t in targets], "thrs": [base.tq(t) for t in thrs],
             "results": [base.model_res(d, mode) for d in descs], "gts": gts}
 
 
-def _req_map(frames, targets, mode, thrs, scene, twod=False):
+def _req_map(frames, targets, mode, thrs, scene, twod=False, crit=None):
     return {"op": "map", "mode": mode, "is2d": twod, "scene": scene, "targets": [LID[t] for t in targets],
-            "thrs": [core.q(t) for t in thrs],
+            "thrs": [base.tq(t) for t in thrs], **({"crit": [LID[t] for t in crit]} if crit else {}),
             "frames": [{"results": [base.model_res(d, mode) for d in fr["res"]], "gts": [g["l"] for g in fr["gts"]]} for fr in frames]}
 
 
@@ -252,7 +325,7 @@ def model_requests(case, out):
                 for t in case["fam"][m]:
                     reqs.append(_req_posneg(fr["res"], fr["gts"], tg, m, t))
             for mp in maps:
-                reqs.append(_req_map([fr], tg, mp["mode"], mp["thrs"], False))
+                reqs.append(_req_map([fr], tg, mp["mode"], mp["thrs"], False, crit=case.get("crit")))
         for mp in out["maps"]:
             reqs.append(_req_map(out["frames"], tg, mp["mode"], mp["thrs"], True))
         return reqs
@@ -263,7 +336,7 @@ def model_requests(case, out):
             reqs.append(_req_map([{"res": out["res"], "gts": out["gts"]}], tg, case["mode"], thrs, False, twod))
         else:
             # free ground-truth count: the first target's AP directly (op "ap"), other labels through "map"
-            reqs.append({"op": "ap", "mode": case["mode"], "targets": [LID[tg[0]]], "thrs": [core.q(thrs[0])], "G": case["G"],
+            reqs.append({"op": "ap", "mode": case["mode"], "targets": [LID[tg[0]]], "thrs": [base.tq(thrs[0])], "G": case["G"],
                          "results": [[base.model_res(d, case["mode"]) for d in _bucket(out["res"], tg, tg[0])]]})
     return reqs
 
@@ -390,11 +463,12 @@ def _mono_map(tag, m, m2, targets):
 
 
 def _valid(mode, *lists):
-    return mode in ("center", "plane") or all(0.0 <= t <= 1.0 for l in lists for t in l)
+    return mode in ("center", "plane") or all(base.iou_valid(l) for l in lists)
 
 
 def _looser(mode, t1, t2):
-    return all((b >= a) if mode in ("center", "plane") else (b <= a) for a, b in zip(t1, t2))
+    """entry by entry at least as loose; float("inf") is looser than every number in the distance modes"""
+    return len(t1) == len(t2) and all(_looser1(mode, a, b) for a, b in zip(t1, t2))
 
 
 def oracle(case, out):
@@ -430,6 +504,17 @@ def oracle(case, out):
 
 def branches(case, out):
     b = [f"src={case['src']}"]
+    lists = [case["thrs"], case["thrs2"]] if "thrs" in case else [t for v in case["fam"].values() for t in v]
+    b.extend(base.thr_branches(lists))
+    if "thrs" in case:
+        for a, c in zip(base.tfl(case["thrs"]), base.tfl(case["thrs2"])):
+            ext = lambda v: base._isinf(v) or v >= 1e200 or v < 1e-200  # noqa
+            if ext(a) or ext(c):
+                b.append("pair:" + ("extreme->extreme" if ext(a) and ext(c) else "ordinary->extreme" if ext(c) else "extreme->ordinary"))
+    if case.get("dperm") is not None:
+        b.append("dict:other-key-order")
+    if case.get("crit") and case["crit"] != case["targets"]:
+        b.append("crit-labels:other-order")
     if "err" in out:
         return b + [f"err:{out['err']}"]
     if case["src"] == "manager":
@@ -473,7 +558,7 @@ def branches(case, out):
         s = d["s"][mode]
         gl = None if d["g"] is None else LABELS[d["g"]["l"]]
         b.append("res:" + ("nomethod" if s == "nm" else "nogt" if gl is None else "fpgt" if gl == "false_positive" else "paired"))
-        if s not in ("nm", None) and any(Fraction(s) == Fraction(t) for t in list(case["thrs"]) + list(case["thrs2"])):
+        if s not in ("nm", None) and any(Fraction(s) == base._frac(t) for t in list(case["thrs"]) + list(case["thrs2"])):
             b.append("score-on-threshold")
     if "false_positive" in case["targets"]:
         b.append("fp-label-is-target")
